@@ -181,6 +181,109 @@ pub fn child(args: &[String]) -> i32 {
     0
 }
 
+fn mt_record(tid: u64, seq: u64) -> (usize, usize, Vec<u8>) {
+    let h = hash64(&[tid.to_le_bytes(), seq.to_le_bytes()].concat());
+    let (fgi, bgi) = ((h % 17) as usize, ((h >> 8) % 17) as usize);
+    let body: String = (0..(3 + h % 40)).map(|k| (b'a' + ((h >> 16).wrapping_add(k) % 26) as u8) as char).collect();
+    (fgi, bgi, format!("<{tid}:{seq}:{body}>\n").into_bytes())
+}
+
+/// Body of the multi-threaded child (`vh c17-mt <kind> <threads> <per>`): every thread sends its records through the
+/// process-wide standard stream handle with one coloured write each.
+pub fn child_mt(args: &[String]) -> i32 {
+    let kind = args.first().cloned().unwrap_or_default();
+    let threads: u64 = args.get(1).and_then(|s| s.parse().ok()).unwrap_or(4);
+    let per: u64 = args.get(2).and_then(|s| s.parse().ok()).unwrap_or(100);
+    let barrier = std::sync::Arc::new(std::sync::Barrier::new(threads as usize));
+    let hs: Vec<_> = (0..threads)
+        .map(|tid| {
+            let barrier = barrier.clone();
+            let kind = kind.clone();
+            std::thread::spawn(move || {
+                let mut short = 0u64;
+                barrier.wait();
+                for seq in 0..per {
+                    let (fgi, bgi, data) = mt_record(tid, seq);
+                    let r = if kind == "stdout" { std::io::stdout().write_colored(color(fgi), color(bgi), &data) } else { std::io::stderr().write_colored(color(fgi), color(bgi), &data) };
+                    if r.ok() != Some(data.len()) {
+                        short += 1;
+                    }
+                }
+                short
+            })
+        })
+        .collect();
+    let short: u64 = hs.into_iter().map(|h| h.join().unwrap_or(1)).sum();
+    let _ = std::io::stdout().flush();
+    if kind == "stdout" {
+        eprint!("done {short}");
+    } else {
+        print!("done {short}");
+    }
+    0
+}
+
+/// Several threads write through `std::io::Stdout` / `Stderr` at once: the stream must be a concatenation of whole
+/// frames (each record in its own colours, reset after it), every record once, per-thread order kept.
+pub fn check_stdio_mt(kind: &str, threads: u64, per: u64, st: &mut Stats) -> Result<(), (String, String)> {
+    let exe = std::env::current_exe().map_err(|e| ("c17:harness".to_string(), e.to_string()))?;
+    let out = std::process::Command::new(exe)
+        .args(["c17-mt", kind, &threads.to_string(), &per.to_string()])
+        .stdin(std::process::Stdio::null())
+        .output()
+        .map_err(|e| ("c17:harness".to_string(), e.to_string()))?;
+    let (stream, report) = if kind == "stdout" { (&out.stdout, &out.stderr) } else { (&out.stderr, &out.stdout) };
+    if !out.status.success() || String::from_utf8_lossy(report) != "done 0" {
+        // a short count from the standard stream (or a dead child) is not what this lane studies
+        st.count("multi_threaded_runs_without_verdict");
+        return Ok(());
+    }
+    let frame = |tid: u64, seq: u64| {
+        let (fgi, bgi, data) = mt_record(tid, seq);
+        let mut v: Vec<u8> = vec![];
+        let _ = v.write_colored(color(fgi), color(bgi), &data);
+        v
+    };
+    let mut next = vec![0u64; threads as usize];
+    let mut pos = 0usize;
+    let mut switches = 0u64;
+    let mut prev = u64::MAX;
+    while pos < stream.len() {
+        let mut hit = None;
+        for tid in 0..threads {
+            if next[tid as usize] < per {
+                let f = frame(tid, next[tid as usize]);
+                if stream[pos..].starts_with(&f) {
+                    hit = Some((tid, f.len()));
+                    break;
+                }
+            }
+        }
+        match hit {
+            Some((tid, len)) => {
+                pos += len;
+                next[tid as usize] += 1;
+                if prev != u64::MAX && prev != tid {
+                    switches += 1;
+                }
+                prev = tid;
+            }
+            None => {
+                return Err((
+                    format!("c17:{kind}:interleaved-frames"),
+                    format!("{threads} threads writing through std::io::{kind}: at byte {pos} the stream does not continue with a whole frame of any thread's next record: {:?}", show(&stream[pos..(pos + 120).min(stream.len())])),
+                ));
+            }
+        }
+    }
+    if next.iter().any(|n| *n != per) {
+        return Err((format!("c17:{kind}:lost-frames"), format!("records seen per thread {next:?}, expected {per} each")));
+    }
+    st.add("multi_threaded_frames_checked", threads * per);
+    st.add("multi_threaded_thread_switches", switches);
+    Ok(())
+}
+
 /// Standard-stream writer kinds: run the child, capture both pipes, apply the framing rule to what the stream received.
 pub fn check_stdio(kind: &str, fgi: usize, bgi: usize, data: &[u8]) -> Result<(), (String, String)> {
     let exe = std::env::current_exe().map_err(|e| ("c17:harness".to_string(), e.to_string()))?;
@@ -237,12 +340,51 @@ pub fn check_file_sequence(fgi: usize, bgi: usize, data: &[u8]) -> Result<(), (S
     check_framing(&out, fgi, bgi, data, n).map_err(|(s, m)| (s.replace("c17:", "c17:File-after-error:"), m))
 }
 
+/// The scripted writer of C06 behind a mutex, so that it can sit in `Box<dyn Write + Send + Sync>`.
+pub struct SendScripted(pub std::sync::Arc<std::sync::Mutex<Shared>>);
+
+impl Write for SendScripted {
+    fn write(&mut self, buf: &[u8]) -> std::io::Result<usize> {
+        let mut s = self.0.lock().expect("lock");
+        let step = s.script.get(s.pos).copied().unwrap_or(Step::All);
+        s.pos += 1;
+        let r = match step {
+            Step::Accept(k) => Ok((k as usize).min(buf.len())),
+            Step::All => Ok(buf.len()),
+            Step::Interrupted => Err(std::io::Error::new(ErrorKind::Interrupted, "injected")),
+            Step::WouldBlock => Err(std::io::Error::new(ErrorKind::WouldBlock, "injected")),
+            Step::Other => Err(std::io::Error::new(ErrorKind::Other, "injected")),
+        };
+        let n = *r.as_ref().unwrap_or(&0);
+        s.delivered.extend_from_slice(&buf[..n]);
+        s.calls.push(vcore::c06::InnerCall { offered: buf.to_vec(), step, accepted: n });
+        r
+    }
+    fn flush(&mut self) -> std::io::Result<()> {
+        self.0.lock().expect("lock").flushes += 1;
+        Ok(())
+    }
+}
+
 pub fn check_scripted(fgi: usize, bgi: usize, data: &[u8], script: &[Step], st: Option<&mut Stats>) -> Result<(), (String, String)> {
     let (fg, bg) = (color(fgi), color(bgi));
-    let shared = Rc::new(RefCell::new(Shared { script: script.to_vec(), ..Default::default() }));
-    let mut w: Box<dyn Write> = Box::new(Scripted(shared.clone()));
-    let ret = w.write_colored(fg, bg, data);
-    let sh = shared.borrow();
+    // the three trait-object kinds that have their own impl, chosen by the case (deterministic, so replays agree)
+    let shared = std::sync::Arc::new(std::sync::Mutex::new(Shared { script: script.to_vec(), ..Default::default() }));
+    let ret = match (fgi + 2 * bgi + script.len() + data.len()) % 3 {
+        0 => {
+            let mut w: Box<dyn Write> = Box::new(SendScripted(shared.clone()));
+            w.write_colored(fg, bg, data)
+        }
+        1 => {
+            let mut w: Box<dyn Write + Send> = Box::new(SendScripted(shared.clone()));
+            w.write_colored(fg, bg, data)
+        }
+        _ => {
+            let mut w: Box<dyn Write + Send + Sync> = Box::new(SendScripted(shared.clone()));
+            w.write_colored(fg, bg, data)
+        }
+    };
+    let sh = shared.lock().expect("lock");
     // the data write: the first inner write after the (up to two) colour codes have been written completely.  A code
     // is written with write_all semantics (retried on a short count / Interrupted), the data with a single write.
     let ncodes = fg.is_some() as usize + bg.is_some() as usize;
@@ -458,6 +600,21 @@ pub fn run(cfg: &Cfg) -> Stats {
                     }
                 }
             }
+            // several threads through the process-wide handles
+            for (ki, kind) in ["stdout", "stderr"].iter().enumerate() {
+                for threads in [2u64, 8] {
+                    k += 1;
+                    if k % n != shard {
+                        continue;
+                    }
+                    let per = if cfg.tier == Tier::Quick { 1500 } else { 20_000 };
+                    st.eval();
+                    st.nontrivial_enum();
+                    if let Err((sig, msg)) = check_stdio_mt(kind, threads, per, &mut st) {
+                        st.viol(&sig, msg, Case::new("c17-mt").n(ki as i64).n(threads as i64).n(per as i64));
+                    }
+                }
+            }
             for (di, data) in DATA.iter().enumerate() {
                 for pair in [(0usize, 0usize), (3, 1), (0, 9), (12, 0)] {
                     k += 1;
@@ -530,6 +687,18 @@ pub fn replay(case: &Case) -> Result<String, Viol> {
     let data = case.bytes.first().cloned().unwrap_or_default();
     let fgi = case.nums.first().copied().unwrap_or(0) as usize % 17;
     let bgi = case.nums.get(1).copied().unwrap_or(0) as usize % 17;
+    if case.kind == "c17-mt" {
+        let g = |i: usize| case.nums.get(i).copied().unwrap_or(0);
+        let mut st = Stats::new();
+        let kind = if g(0) == 0 { "stdout" } else { "stderr" };
+        // schedules vary: a few attempts
+        for _ in 0..5 {
+            if let Err((sig, msg)) = check_stdio_mt(kind, g(1).max(2) as u64, g(2).max(100) as u64, &mut st) {
+                return Err(Viol { case: case.clone(), msg, sig });
+            }
+        }
+        return Ok("frames of concurrent writers were contiguous in 5 runs".into());
+    }
     let r = if case.kind == "c17-stdio" {
         let kind = STDIO_KINDS[case.nums.get(2).copied().unwrap_or(0) as usize % 4];
         vcore::guarded(|| check_stdio(kind, fgi, bgi, &data))
